@@ -24,6 +24,8 @@ struct Case {
     arrs: Vec<ArrEnv>,
     cuts: Vec<(ExprRef, BitVecValue)>,
     provider: u64,
+    /// define every symbol with a scratch value first, then update it to the real one (SymbolValueStore::update*)
+    updates: bool,
     extra_indices: Vec<BitVecValue>,
 }
 
@@ -126,7 +128,8 @@ fn gen_case(rng: &mut Rng, stats: &mut Stats, args: &Args) -> Case {
         }
     }
     let provider = if has_array_sym { 0 } else { rng.below(3) };
-    Case { ctx, root, bvs, arrs, cuts, provider, extra_indices: vec![] }
+    let updates = rng.chance(1, 2);
+    Case { ctx, root, bvs, arrs, cuts, provider, updates, extra_indices: vec![] }
 }
 
 fn parse_case(c: &Sexp) -> Case {
@@ -154,12 +157,13 @@ fn parse_case(c: &Sexp) -> Case {
         cuts.push((n, l[1].bits()));
     }
     let provider = c.field("provider").map(|p| p[0].num()).unwrap_or(0);
+    let updates = c.field("updates").map(|p| p[0].num() == 1).unwrap_or(false);
     let extra_indices = c.field("indices").unwrap_or(&[]).iter().map(|i| i.bits()).collect();
-    Case { ctx, root, bvs, arrs, cuts, provider, extra_indices }
+    Case { ctx, root, bvs, arrs, cuts, provider, updates, extra_indices }
 }
 
 fn run_case(id: &str, case: Case, rng: &mut Rng, stats: &mut Stats) -> String {
-    let Case { mut ctx, root, bvs, arrs, cuts, provider, extra_indices } = case;
+    let Case { mut ctx, root, bvs, arrs, cuts, provider, updates, extra_indices } = case;
     let root_ty = root.get_type(&ctx);
     match root_ty {
         Type::BV(w) => stats.bump("root_width", &format!("{w}")),
@@ -172,7 +176,14 @@ fn run_case(id: &str, case: Case, rng: &mut Rng, stats: &mut Stats) -> String {
     for (s, v) in bvs.iter() {
         let name = ctx.get_symbol_name(*s).unwrap().to_string();
         bvenv.push_str(&format!(" ({} {} {})", quote(&name), v.width(), bv_tok(v)));
-        store.define_bv(*s, v);
+        if updates {
+            // scratch value first (all ones / random), then the real value through update_bv or update(Value)
+            let scratch = if rng.chance(1, 2) { BitVecValue::ones(v.width()) } else { lit_value(rng, v.width()) };
+            store.define_bv(*s, &scratch);
+            if rng.chance(1, 2) { store.update_bv(*s, v) } else { store.update(*s, Value::BitVec(v.clone())) }
+        } else {
+            store.define_bv(*s, v);
+        }
         bv_pairs.push((*s, v.clone()));
     }
     for a in arrs.iter() {
@@ -185,7 +196,13 @@ fn run_case(id: &str, case: Case, rng: &mut Rng, stats: &mut Stats) -> String {
             txt.push_str(&format!(" ({} {})", bv_tok(i), bv_tok(v)));
         }
         arrenv.push_str(&format!(" ({} {})", quote(&name), txt));
-        store.define_array(a.sym, val);
+        if updates {
+            let scratch = ArrayValue::new_sparse(t.index_width, &BitVecValue::ones(t.data_width));
+            store.define_array(a.sym, scratch);
+            if rng.chance(1, 2) { store.update_array(a.sym, val) } else { store.update(a.sym, Value::Array(val)) }
+        } else {
+            store.define_array(a.sym, val);
+        }
     }
     let mut cut = String::new();
     for (n, v) in cuts.iter() {
@@ -201,6 +218,7 @@ fn run_case(id: &str, case: Case, rng: &mut Rng, stats: &mut Stats) -> String {
         }
     }
     stats.bump("provider", ["SymbolValueStore", "FxHashMap", "slice"][provider as usize]);
+    stats.bump("store_updates", if updates { "define-then-update" } else { "define-only" });
 
     // run the implementation
     let res: Result<Value, String> = guarded(|| match provider {
@@ -273,8 +291,9 @@ fn run_case(id: &str, case: Case, rng: &mut Rng, stats: &mut Stats) -> String {
     let idx_txt: String = indices.iter().map(|i| format!(" {}", bv_tok(i))).collect();
     stats.bump("tree_size", &format!("{}", (tree_size(&ctx, root, 400) / 10) * 10));
     format!(
-        "(case {id} (expr {}) (bvenv{bvenv}) (arrenv{arrenv}) (cut{cut}) (provider {provider}) (indices{idx_txt}) (impl {impl_txt}) (panicloc {}) (panicmsg {}))",
+        "(case {id} (expr {}) (bvenv{bvenv}) (arrenv{arrenv}) (cut{cut}) (provider {provider}) (updates {}) (indices{idx_txt}) (impl {impl_txt}) (panicloc {}) (panicmsg {}))",
         dump_expr(&ctx, root),
+        if updates { 1 } else { 0 },
         quote(&panic_loc),
         quote(&panic_msg)
     )
